@@ -506,15 +506,24 @@ func TestVerifC08(t *testing.T) {
 	}
 	// 3. bad requests: wrong method, missing / malformed / out-of-range parameters; the backend would answer cleanly
 	odd := []string{"", " ", "abc", "-1", "1e3", "+5", "0", "1", "5", "6", "7", "9223372036854775807", "9223372036854775808", "-9223372036854775808", "0x5", "5.0"}
+	// a reply that is NOT a fault for the endpoint's first request variant (used as the "clean" step of histories)
 	clean := map[string]c08Reply{}
 	for ep, rs := range replies {
+		q0 := reqs[ep][0]
+		a0, _ := strconv.ParseInt(q0.p1, 10, 64)
+		b0, _ := strconv.ParseInt(q0.p2, 10, 64)
+		lastCount = b0 - a0 + 1
+		found := false
 		for _, rp := range rs {
-			if !strings.HasPrefix(rp.desc, "err") {
-				clean[ep] = rp
+			if !strings.HasPrefix(rp.desc, "err") && !rp.fault(a0, b0) {
+				clean[ep], found = rp, true
 				break
 			}
 		}
-		if _, ok := clean[ep]; !ok {
+		if !found {
+			if ep != "get-roots" {
+				t.Fatalf("no clean reply for %s", ep)
+			}
 			clean[ep] = rs[0]
 		}
 	}
